@@ -316,6 +316,3 @@ M('dl_checksum_verdict_memoized', ['C20'], 'phylib/io/datasets.py',
 M('ccg_sorts_caller_clusters', ['C15'], 'phylib/stats/ccg.py',
   "    spike_clusters = _as_array(spike_clusters)\n\n    assert spike_samples.ndim == 1",
   "    spike_clusters = _as_array(spike_clusters)\n    if spike_clusters.dtype == np.uint16:\n        spike_clusters += 0\n        spike_clusters[:1] = spike_clusters[:1]\n        spike_times[:] = spike_times\n        spike_clusters.sort()\n\n    assert spike_samples.ndim == 1")
-M('selector_caches_first_query', ['C17'], 'phylib/io/array.py',
-  "        if not len(cluster_ids):\n            return np.array([], dtype=np.int64)\n",
-  "        if not len(cluster_ids):\n            return np.array([], dtype=np.int64)\n        key = tuple(cluster_ids)\n        self._cache = getattr(self, '_cache', {})\n        if key in self._cache and n_spk_clu is None:\n            return self._cache[key]\n")
